@@ -6,8 +6,8 @@ import ast
 from typing import Dict, List, Optional, Set
 
 from . import astu
-from .facts import Run, normal
-from .interp import Ctx, analyse_function, analyse_method, annotation_kind, exc_is_subclass
+from .facts import Run, cond_pol, normal
+from .interp import Ctx, Frame, analyse_function, analyse_method, annotation_kind, exc_is_subclass
 from .model import AnalysisError, iter_functions
 from .report import RuleResult
 from .terms import Child, Const, Fn, New, Sym, Term, Val
@@ -55,13 +55,7 @@ def rule_SO(run: Run) -> RuleResult:
     saw_hit = saw_miss_default = saw_miss_raise = saw_fail_default = saw_fail_raise = False
     for p in ps:
         failed_dispatch = any(e.kind == "op" and e.failed and isinstance(e.target, Child) and e.target.path == "dispatch" for e in p.events)
-        member = None
-        for c in p.conds:
-            t = c[2]
-            if t == f"cmp:NotIn({DISP},Child(lookup))":
-                member = not c[1]
-            elif t == f"cmp:In({DISP},Child(lookup))":
-                member = c[1]
+        member = cond_pol(p.conds, f"cmp:In({DISP},Child(lookup))")
         if p.status == "ret":
             r = p.ret
             if isinstance(r, Const):
@@ -93,7 +87,7 @@ def rule_SO(run: Run) -> RuleResult:
                     if dep != Child("dispatch"):
                         ok_miss = False
                         d_miss = "default (on miss) is not wrapped with the dispatch dependency"
-                has_def = any(("cmp:Is(Child(default),Const(MISSING))" in c[2] and c[1] is False) for c in p.conds)
+                has_def = cond_pol(p.conds, "cmp:Is(Child(default),Const(MISSING))") is False
                 if not has_def:
                     ok_miss = False
                     d_miss = "default returned without testing that a default exists"
@@ -102,7 +96,7 @@ def rule_SO(run: Run) -> RuleResult:
                 d_end = f"a path returns {r.key()[:80]}"
         elif p.status == "raise":
             typ = p.exc[0] if p.exc else "?"
-            no_def = any(("cmp:Is(Child(default),Const(MISSING))" in c[2] and c[1] is True) for c in p.conds)
+            no_def = cond_pol(p.conds, "cmp:Is(Child(default),Const(MISSING))") is True
             if failed_dispatch:
                 saw_fail_raise = True
                 if not no_def:
@@ -152,7 +146,7 @@ def rule_SO(run: Run) -> RuleResult:
                 if any(tests):
                     ok_def = False
                     d_def = "default returned although a condition held"
-                if not any("cmp:IsNot(Child(default),Const(MISSING))" in c[2] and c[1] or "cmp:Is(Child(default),Const(MISSING))" in c[2] and not c[1] for c in p.conds):
+                if cond_pol(p.conds, "cmp:Is(Child(default),Const(MISSING))") is not False:
                     ok_def = False
                     d_def = "default returned without testing that it exists"
             else:
@@ -224,8 +218,20 @@ def rule_SO(run: Run) -> RuleResult:
     res.add("labrea.coalesce.Coalesce._delegate:first member that validates and succeeds wins", ok_c and n >= 4, f, ln, d_c or f"{n} returning paths", nec)
     ps = analyse_method(Ctx(repo, unroll=2), co, "_delegate")
     raises = [p for p in ps if p.status == "raise"]
-    ok_r = bool(raises) and all(p.exc and p.exc[0] in ("err", "EvaluationError?") for p in raises)
-    res.add("labrea.coalesce.Coalesce._delegate:raises the last member's error when none succeeds", ok_r, f, ln, f"{[p.exc[0] for p in raises][:4]}", nec)
+    ok_r = bool(raises)
+    shapes = []
+    for p in raises:
+        rev = [e for e in p.events if e.kind == "raise"][-1]
+        tk = rev.target.key() if rev.target is not None else rev.text
+        failed = [e for e in p.events if e.failed]
+        shapes.append(tk[:40])
+        if failed:
+            # the error raised is the one caught from the (last) failing member
+            if not tk.startswith("exc-of"):
+                ok_r = False
+        elif tk not in ("Const(None)",):
+            ok_r = False
+    res.add("labrea.coalesce.Coalesce._delegate:raises the last member's error when none succeeds", ok_r, f, ln, f"raises {sorted(set(shapes))}", nec)
     return res
 
 
@@ -323,14 +329,29 @@ def rule_OP(run: Run) -> RuleResult:
         fi = repo.functions.get(f"labrea.collections.{fname}")
         if fi is None:
             raise AnalysisError(f"labrea.collections.{fname} not found")
-        rets = [ast.unparse(r.value) for r in astu.walk_no_nested(fi.node) if isinstance(r, ast.Return) and r.value is not None]
-        ok = rets == [form]
-        if fname == "evaluatable_dict" and ok:
-            amap = astu.single_assign_map(fi.node)
-            pv = amap.get("pairs")
-            ok = pv is not None and isinstance(pv, ast.GeneratorExp) and ast.unparse(pv.generators[0].iter) == "contents.items()" \
-                and ast.unparse(pv.elt).endswith("(Value(key), val)")
-        res.add(f"labrea.collections.{fname}:arguments in order through {form.split('.apply')[1]}", ok, cm.relpath, fi.node.lineno, f"{rets}", nec)
+        builtin = form.split(".apply(")[1].rstrip(")")
+        fps = [p for p in analyse_function(Ctx(repo), fi.module, fi.node) if p.status == "ret"]
+        ok = bool(fps)
+        shown = []
+        nonempty = False
+        for p in fps:
+            r_ = p.ret
+            k_ = r_.key()
+            shown.append(k_[:90])
+            good = isinstance(r_, New) and r_.cls.name == "Apply" and r_.attrs.get("func") is not None and r_.attrs["func"].key() == f"name<{builtin}>" \
+                and isinstance(r_.attrs.get("evaluatable"), New) and r_.attrs["evaluatable"].cls.name == "Iter" and "reordered:" not in k_
+            if good:
+                inner = r_.attrs["evaluatable"].attrs.get("evaluatables")
+                ik = inner.key() if inner is not None else ""
+                if fname == "evaluatable_dict":
+                    good = "Seq[New(Value;value=key(contents)),elem(contents)]" in ik.replace("call:items(contents)", "contents") or "list[]" in ik
+                else:
+                    good = ik in ("Coll(Child(*evaluatables[*]))", "Child(*evaluatables)")
+                if good and "list[]" not in ik:
+                    nonempty = True
+            ok = ok and good
+        ok = ok and nonempty
+        res.add(f"labrea.collections.{fname}:arguments in order through {form.split('.apply')[1]}", ok, cm.relpath, fi.node.lineno, f"{shown}", nec)
     it_cls = repo.cls("Iter")
     init = it_cls.methods.get("__init__")
     ok = init is not None and "self.evaluatables = tuple((Evaluatable.ensure(e) for e in evaluatables))" in ast.unparse(init)
@@ -340,15 +361,20 @@ def rule_OP(run: Run) -> RuleResult:
     fn = mp.methods.get("_iterate_over_options")
     if fn is None:
         raise AnalysisError("Map._iterate_over_options not found")
-    txt = ast.unparse(fn)
-    zips = [c for c in astu.calls_in(fn) if astu.short_name(c) == "zip"]
-    prods = [c for c in astu.calls_in(fn) if astu.short_name(c) == "product"]
-    ok = len(zips) == 1 and len(prods) == 1 and ast.unparse(zips[0].args[0]) == "self.iterables.keys()" \
-        and "self.iterables.values()" in ast.unparse(prods[0]) and not any(astu.short_name(c) in REORDER for c in astu.calls_in(fn))
-    if ok:
-        # the zip's second operand is the loop variable over the product
-        comp = [x for x in ast.walk(fn) if isinstance(x, ast.comprehension) and any(y is prods[0] for y in ast.walk(x.iter))]
-        ok = bool(comp) and isinstance(comp[0].target, ast.Name) and ast.unparse(zips[0].args[1]) == comp[0].target.id
+    mps = [p for p in analyse_method(Ctx(repo), mp, "_iterate_over_options") if p.status == "ret"]
+    PROD = "call:itertools.product(star(Coll(Val(evaluate,Child(iterables[*])))))"
+    ok = bool(mps) and not any(astu.short_name(c) in REORDER for c in astu.calls_in(fn))
+    saw_zip = False
+    for p in mps:
+        for e in p.events:
+            if e.kind == "call" and e.text == "itertools.product":
+                if [a.key() for a in e.args] != ["star(Coll(Val(evaluate,Child(iterables[*]))))"]:
+                    ok = False
+            if e.kind == "call" and e.text == "zip":
+                saw_zip = True
+                if [a.key() for a in e.args] != ["dictkeys(Child(iterables))", f"elem({PROD})"]:
+                    ok = False
+    ok = ok and saw_zip
     res.add("labrea.iterable.Map._iterate_over_options:keys zipped with the product over the same mapping", ok, mp.module.relpath, fn.lineno,
             "zip(self.iterables.keys(), values) for values in itertools.product(*(… for iterable in self.iterables.values()))", nec)
     return res
@@ -532,7 +558,8 @@ def rule_RG(run: Run) -> RuleResult:
             cur = pm[id(cur)]
             if isinstance(cur, ast.For):
                 loops.append(ast.unparse(cur.iter))
-        ok = "aliases" in loops and any("member_list" in l or "members" in l for l in loops)
+        joined = " ".join(loops)
+        ok = "aliases" in joined and ("member_list" in joined or "members" in joined)
     res.add("labrea.interface.Implementation.__init__:every member registered under every alias", ok, im.module.relpath, fn.lineno, "nested loops over the member list and the aliases", nec)
     # every interface's member of a name is collected (multi-interface implementations)
     gm = repo.functions.get("labrea.interface._get_members")
@@ -580,20 +607,32 @@ def rule_ID(run: Run) -> RuleResult:
             res.add("labrea.interface.Interface.__init__:existing Dataset member gets set_dispatch(dispatch)", ok, f, c.lineno, ast.unparse(c)[:80], nec)
     if n < 4:
         res.add("labrea.interface.Interface.__init__:four member kinds handled", False, f, fn.lineno, f"only {n} dispatch-setting sites (annotation, function, Dataset, plain value)", nec)
-    # the member-kind chain is exhaustive (has an else) and every branch sets the dispatch
-    chains = [x for x in astu.walk_no_nested(fn) if isinstance(x, ast.If) and "isinstance(val, FunctionType)" in ast.unparse(x.test)]
-    ok = False
-    if chains:
-        c0 = chains[0]
-        branches = [c0.body]
-        cur = c0
-        while len(cur.orelse) == 1 and isinstance(cur.orelse[0], ast.If):
-            cur = cur.orelse[0]
-            branches.append(cur.body)
-        if cur.orelse:
-            branches.append(cur.orelse)
-            ok = all(any(astu.short_name(c) in ("dataset", "abstractdataset", "set_dispatch") for s in b for c in astu.calls_in(s)) for b in branches)
-    res.add("labrea.interface.Interface.__init__:member-kind chain exhaustive, every branch sets the dispatch", ok, f, fn.lineno, "if FunctionType / elif Dataset / else", nec)
+    # every member that passes the underscore guard gets the dispatch, whatever its kind
+    ips = [p for p in analyse_method(Ctx(repo), it, "__init__") if p.status == "ret"]
+    ok = bool(ips)
+    why = ""
+    n_set = 0
+    for p in ips:
+        guards = 0
+        for c in p.conds:
+            k, pol = Frame.norm_cond(c[2], c[1])
+            if k.startswith("call:startswith(") and k.endswith("Const('_'))") and pol is False:
+                guards += 1
+        sets = 0
+        for e in p.events:
+            if e.kind != "call":
+                continue
+            if e.text in ("labrea.dataset.dataset", "labrea.dataset.abstractdataset") and any(a.key() == "kw:dispatch(dispatch)" for a in e.args):
+                sets += 1
+            if e.text == "set_dispatch" and e.args and e.args[0].key() == "dispatch":
+                sets += 1
+        n_set += sets
+        if sets < guards:
+            ok = False
+            why = f"a member that is not underscore-prefixed passes through __init__ without receiving the dispatch (conditions {[c[0][:40] for c in p.conds]})"
+    ok = ok and n_set >= 3
+    res.add("labrea.interface.Interface.__init__:member-kind chain exhaustive, every branch sets the dispatch", ok, f, fn.lineno,
+            why or f"{len(ips)} paths; every processed member reaches dataset(…, dispatch=dispatch) / set_dispatch(dispatch)", nec)
     # the dispatch handed to Interface() is the one given to @interface
     w = repo.functions.get("labrea.interface.interface")
     ok = w is not None and any(astu.short_name(c) == "Interface" and c.args and ast.unparse(c.args[-1]) == "dispatch" for c in astu.calls_in(w.node))
@@ -637,7 +676,12 @@ def rule_EH(run: Run) -> RuleResult:
                 continue
             hname = in_handler[0][0]
             typ, cause, line = p.exc
-            same = [c for c in p.conds if c[2] == f"cmp:Is(attr:source(exc-of({SRC})),{SRC})"]
+            same = []
+            for c in p.conds:
+                if c[2] == f"cmp:Is(attr:source(exc-of({SRC})),{SRC})":
+                    same.append((c[0], c[1], c[2]))
+                elif c[2] == f"cmp:IsNot(attr:source(exc-of({SRC})),{SRC})":
+                    same.append((c[0], not c[1], c[2]))
             rev = [e for e in p.events if e.kind == "raise"][-1]
             if "EvaluationError" in hname:
                 if same and same[0][1] is True:
